@@ -3,6 +3,7 @@ package wire
 import (
 	"bytes"
 	"context"
+	"encoding/binary"
 	"errors"
 	"fmt"
 	"io"
@@ -140,6 +141,81 @@ type BinaryCopyReader struct {
 	typeMap  *pgtype.Map
 	reader   *CopyReader
 	scanners []Scanner
+	buf      []byte // received but not yet consumed bytes of the copy-in stream
+	started  bool   // the (optional) file header has been consumed
+	eof      bool   // CopyDone has been received, no further messages are read
+	done     bool   // the end of the copy-in stream has been reported
+}
+
+// fill makes sure that at least n bytes of the copy-in stream are buffered. The
+// binary copy format is a single byte stream, the boundaries of the CopyData
+// messages carrying it have no meaning: a row (or the file header) may span
+// any number of messages. io.EOF is returned once the client has completed
+// the stream before n bytes were received.
+func (r *BinaryCopyReader) fill(n int) error {
+	for len(r.buf) < n {
+		if r.eof {
+			return io.EOF
+		}
+
+		err := r.reader.Read()
+		if err == io.EOF {
+			r.eof = true
+			return io.EOF
+		}
+
+		if err != nil {
+			return err
+		}
+
+		r.buf = append(r.buf, r.reader.Msg...)
+	}
+
+	return nil
+}
+
+// next consumes exactly n bytes of the copy-in stream.
+func (r *BinaryCopyReader) next(n int) ([]byte, error) {
+	err := r.fill(n)
+	if err == io.EOF {
+		return nil, fmt.Errorf("unexpected end of the copy-in stream: %w", io.ErrUnexpectedEOF)
+	}
+
+	if err != nil {
+		return nil, err
+	}
+
+	v := r.buf[:n:n]
+	r.buf = r.buf[n:]
+	return v, nil
+}
+
+// header consumes the file header (signature, flags and header extension) if
+// the copy-in stream starts with one.
+func (r *BinaryCopyReader) header() error {
+	err := r.fill(len(CopySignature))
+	if err != nil && err != io.EOF {
+		return err
+	}
+
+	if !bytes.HasPrefix(r.buf, CopySignature) {
+		return nil
+	}
+
+	// NOTE: a 32-bit flags field and the 32-bit length of the header
+	// extension area follow the signature, the extension area is skipped.
+	fixed, err := r.next(len(CopySignature) + 8)
+	if err != nil {
+		return err
+	}
+
+	extension := binary.BigEndian.Uint32(fixed[len(CopySignature)+4:])
+	if int64(extension) > int64(r.reader.MaxMessageSize) {
+		return fmt.Errorf("unexpected copy header extension length: %d", extension)
+	}
+
+	_, err = r.next(int(extension))
+	return err
 }
 
 // Read reads a single row from the copy-in stream. The read row is returned as a
@@ -150,47 +226,73 @@ func (r *BinaryCopyReader) Read(ctx context.Context) (_ []any, err error) {
 		return nil, ctx.Err()
 	}
 
-	// NOTE: read the next chunk from the copy-in stream if the current chunk is empty.
-	if len(r.reader.Msg) == 0 {
-		err = r.reader.Read()
+	if r.done {
+		return nil, io.EOF
+	}
+
+	if !r.started {
+		r.started = true
+		err = r.header()
 		if err != nil {
 			return nil, err
 		}
-
-		has := bytes.HasPrefix(r.reader.Msg, CopySignature)
-		if has {
-			_, err = r.reader.GetBytes(len(CopySignature))
-			if err != nil {
-				return nil, err
-			}
-
-			// NOTE: 2 x 32-bit integer fields are send after the signature which we ignore for now.
-			_, err = r.reader.GetBytes(8)
-			if err != nil {
-				return nil, err
-			}
-		}
 	}
 
-	fields, err := r.reader.GetUint16()
+	// NOTE: the stream ends with CopyDone on a row boundary or with the file
+	// trailer, a 16-bit word containing -1 in place of a field count.
+	err = r.fill(2)
+	if err == io.EOF && len(r.buf) == 0 {
+		r.done = true
+		return nil, io.EOF
+	}
+
+	if err != nil && err != io.EOF {
+		return nil, err
+	}
+
+	count, err := r.next(2)
 	if err != nil {
 		return nil, err
 	}
 
+	fields := binary.BigEndian.Uint16(count)
+	if fields == math.MaxUint16 {
+		// NOTE: everything up to CopyDone is consumed in order to leave the
+		// copy-in mode, an abort (CopyFail) after the trailer is still reported.
+		for !r.eof {
+			r.buf = r.buf[:0]
+			err = r.fill(1)
+			if err != nil && err != io.EOF {
+				return nil, err
+			}
+		}
+
+		r.done = true
+		return nil, io.EOF
+	}
+
+	if int(fields) != len(r.scanners) {
+		return nil, fmt.Errorf("unexpected number of fields: %d, expected %d", fields, len(r.scanners))
+	}
+
 	row := make([]any, fields)
-	for index := range fields {
-		length, err := r.reader.GetUint32()
+	for index := range row {
+		size, err := r.next(4)
 		if err != nil {
 			return nil, fmt.Errorf("unexpected field length: %w", err)
 		}
 
-		// NOTE: as a special case, -1 (or 255 255 255 255) indicates a NULL field value.
-		if length == math.MaxUint32 {
-			// r.row[index] = nil
+		// NOTE: as a special case, -1 indicates a NULL field value.
+		length := int32(binary.BigEndian.Uint32(size))
+		if length == -1 {
 			continue
 		}
 
-		value, err := r.reader.GetBytes(int(length))
+		if length < 0 || int(length) > r.reader.MaxMessageSize {
+			return nil, fmt.Errorf("unexpected field length: %d", length)
+		}
+
+		value, err := r.next(int(length))
 		if err != nil {
 			return nil, fmt.Errorf("unexpected value: %w", err)
 		}
